@@ -147,8 +147,14 @@ def main(argv: List[str]) -> int:
     with ThreadPoolExecutor(max_workers=a.jobs) as ex:
         outs = list(ex.map(lambda r: native_replay(rec_of(r), f"{pid}_{r.cond.cid}"), refuted))
     for r, o in zip(refuted, outs):
+        oh = native_replay(dict(rec_of(r), history=True), f"{pid}_{r.cond.cid}") if o["code"] == 3 else None
         if o["code"] == 0:
             violations.append({"cid": r.cond.cid, "call": r.call, "replay": o["path"], "native": o})
+        elif oh is not None and oh["code"] == 0:
+            # passes on its own, fails after an earlier call of the same harness function: the verdict depends on call history
+            o = oh
+            violations.append({"cid": r.cond.cid, "call": f"{o.get('history')}", "replay": o["path"], "native": o})
+            r.verdict = "refuted"
         elif o["code"] in (3, 4):
             r.verdict = "spurious"
             spurious.append({"cid": r.cond.cid, "call": r.call, "native": o.get("outcome")})
